@@ -6,7 +6,7 @@ from enum import Enum
 from typing import Any, Dict, List, NamedTuple, Union
 
 
-class BackendNotFoundError(Exception):
+class BackendNotFoundError(TypeError):
     """
     Raised when a backend is not found for a particular schema of check backend.
     """
